@@ -602,7 +602,12 @@ def read_w3c(acc, gran, text):
     import pptx
 
     wit = {"kind": "w3cdtf", "gran": gran, "text": text}
-    props = [n for n in DATES if schema_valid(n, text)]
+    # "complete date plus hours and minutes" is one of the six W3CDTF granularities (and the property says "every W3CDTF
+    # granularity ... when reading"), although xs:dateTime, which the OPC schema uses for the time-bearing forms, needs seconds:
+    # that one form is judged against the W3C note itself; every other text only where the schema accepts it
+    props = [n for n in DATES if schema_valid(n, text) or (gran == "minutes" and W3C.match(text.strip()))]
+    if gran == "minutes":
+        acc.count("minute_granularity_texts_judged_by_the_w3c_note")
     acc.count("handbuilt_values_schema_checked", len(DATES))
     pkg = rewrite(deck_bytes("default"), {"docProps/core.xml": core_doc({n: text for n in (props or DATES)})})
     part = pptx.Presentation(io.BytesIO(pkg)).core_properties
@@ -804,7 +809,7 @@ def finalize(acc, tier, seed):
         for tag in ("set:", "get:", "get-after-reopen:"):
             if not acc.reach.get(tag + n):
                 acc.inconclusive.append("property never exercised: %s%s" % (tag, n))
-    for need in ("reject-len256", "reject-date", "reject-revision", "w3cdtf-offset", "default-part") + tuple("w3cdtf-read:" + g for g in GRANS if g != "minutes"):
+    for need in ("reject-len256", "reject-date", "reject-revision", "w3cdtf-offset", "default-part") + tuple("w3cdtf-read:" + g for g in GRANS):
         if not acc.reach.get(need):
             acc.inconclusive.append("monitor never reached: " + need)
     for c in ("saves", "core_xml_validations", "handbuilt_documents_read", "w3cdtf_instants_equal"):
